@@ -310,3 +310,43 @@ func fieldNameOfSym(s *px.Sym) string {
 	}
 	return "?"
 }
+
+// c13loadApplies (R12, round 6): every snapshot is applied. Each return of (*cluster).load passes through
+// c.handleChanges(key, snapshot) exactly once, for the key it was asked to load — also when the snapshot is empty:
+// handleChanges is what diffs the previous view against the snapshot, and an empty snapshot after a reconnect or a
+// compaction is exactly the case where every registration must be removed (the watch resumes after the snapshot's
+// revision, so the missed DELETE events are never replayed).
+func c13loadApplies(c *Ctx) {
+	rule := "C13.R12"
+	f := c.fn(rule, discovInt, "(*cluster).load")
+	if f == nil {
+		return
+	}
+	keyP := paramOfType(f, mod+"core/discov/internal.watchKey")
+	if keyP == nil {
+		for _, p := range f.Params {
+			if strings.HasSuffix(typeString(p.Type()), "watchKey") {
+				keyP = p
+			}
+		}
+	}
+	if keyP == nil {
+		c.R.Undecided(rule, discovInt+".(*cluster).load", "load has a key parameter", "not found")
+		return
+	}
+	hc := calleeIs(discovInt + ".(*cluster).handleChanges")
+	ps := c.paths(rule, f, px.Config{MaxVisits: 2})
+	c.forall(rule, discovInt+".(*cluster).load#applies", "every return of load has applied the snapshot through handleChanges(key, …) exactly once — an empty snapshot included", f, ps, func(p *px.Path) (bool, string) {
+		if p.Exit != px.ExitReturn {
+			return true, ""
+		}
+		es := p.All(hc)
+		if len(es) != 1 {
+			return false, fmt.Sprintf("handleChanges ×%d on a returning path: the previous view is not diffed against this snapshot (registrations that vanished while disconnected stay for good)", len(es))
+		}
+		if !isParam(es[0].Call.Args[1], keyP) {
+			return false, "the snapshot is applied under another key"
+		}
+		return true, ""
+	})
+}
